@@ -1,13 +1,40 @@
 /-
   CJSON_DEV — the theorems of Cjet.Props.Cjson restated for the stand-alone development check
-  `./check cjson_dev` (the audit looks the property module up as Cjet/Props/<PID>.lean).
+  `./check cjson_dev` (the audit looks the property module up as Cjet/Props/<PID>.lean).  Regenerate this list
+  when a theorem is added to Cjet/Props/Cjson.lean.
 -/
 import Cjet.Props.Cjson
 
 namespace Cjet.Props.CJSON_DEV
 
-theorem parse_reads_in_bounds_counterexample_before_fix :
-    type_of% @Cjet.Props.Cjson.parse_reads_in_bounds_counterexample_before_fix :=
-  @Cjet.Props.Cjson.parse_reads_in_bounds_counterexample_before_fix
+theorem parse_reads_in_bounds : type_of% @Cjet.Props.Cjson.parse_reads_in_bounds := @Cjet.Props.Cjson.parse_reads_in_bounds
+theorem parse_reads_in_bounds_as_built : type_of% @Cjet.Props.Cjson.parse_reads_in_bounds_as_built := @Cjet.Props.Cjson.parse_reads_in_bounds_as_built
+theorem parse_reads_in_bounds_counterexample_before_fix : type_of% @Cjet.Props.Cjson.parse_reads_in_bounds_counterexample_before_fix := @Cjet.Props.Cjson.parse_reads_in_bounds_counterexample_before_fix
+theorem parse_string_reads_in_bounds : type_of% @Cjet.Props.Cjson.parse_string_reads_in_bounds := @Cjet.Props.Cjson.parse_string_reads_in_bounds
+theorem parse_hex4_reads_in_bounds : type_of% @Cjet.Props.Cjson.parse_hex4_reads_in_bounds := @Cjet.Props.Cjson.parse_hex4_reads_in_bounds
+theorem parse_literal_reads_in_bounds : type_of% @Cjet.Props.Cjson.parse_literal_reads_in_bounds := @Cjet.Props.Cjson.parse_literal_reads_in_bounds
+theorem parse_end_in_bounds : type_of% @Cjet.Props.Cjson.parse_end_in_bounds := @Cjet.Props.Cjson.parse_end_in_bounds
+theorem parse_string_writes_in_bounds : type_of% @Cjet.Props.Cjson.parse_string_writes_in_bounds := @Cjet.Props.Cjson.parse_string_writes_in_bounds
+theorem parse_string_result_fits : type_of% @Cjet.Props.Cjson.parse_string_result_fits := @Cjet.Props.Cjson.parse_string_result_fits
+theorem parse_total : type_of% @Cjet.Props.Cjson.parse_total := @Cjet.Props.Cjson.parse_total
+theorem nesting_bounded : type_of% @Cjet.Props.Cjson.nesting_bounded := @Cjet.Props.Cjson.nesting_bounded
+theorem depth_counter_restored : type_of% @Cjet.Props.Cjson.depth_counter_restored := @Cjet.Props.Cjson.depth_counter_restored
+theorem print_parse_string_roundtrip : type_of% @Cjet.Props.Cjson.print_parse_string_roundtrip := @Cjet.Props.Cjson.print_parse_string_roundtrip
+theorem print_string_length_exact : type_of% @Cjet.Props.Cjson.print_string_length_exact := @Cjet.Props.Cjson.print_string_length_exact
+theorem print_parse_tree_roundtrip_given_number_oracle_partial : type_of% @Cjet.Props.Cjson.print_parse_tree_roundtrip_given_number_oracle_partial := @Cjet.Props.Cjson.print_parse_tree_roundtrip_given_number_oracle_partial
+theorem printed_is_valid_json_text : type_of% @Cjet.Props.Cjson.printed_is_valid_json_text := @Cjet.Props.Cjson.printed_is_valid_json_text
+theorem print_parse_tree_roundtrip : type_of% @Cjet.Props.Cjson.print_parse_tree_roundtrip := @Cjet.Props.Cjson.print_parse_tree_roundtrip
+theorem parsed_tree_strings_are_c_strings : type_of% @Cjet.Props.Cjson.parsed_tree_strings_are_c_strings := @Cjet.Props.Cjson.parsed_tree_strings_are_c_strings
+theorem parse_print_parse_idempotent : type_of% @Cjet.Props.Cjson.parse_print_parse_idempotent := @Cjet.Props.Cjson.parse_print_parse_idempotent
+theorem parse_print_parse_given_number_oracle_partial : type_of% @Cjet.Props.Cjson.parse_print_parse_given_number_oracle_partial := @Cjet.Props.Cjson.parse_print_parse_given_number_oracle_partial
+theorem number_survives_print_parse_given_number_oracle_partial : type_of% @Cjet.Props.Cjson.number_survives_print_parse_given_number_oracle_partial := @Cjet.Props.Cjson.number_survives_print_parse_given_number_oracle_partial
+theorem number_print_counterexample_before_fix : type_of% @Cjet.Props.Cjson.number_print_counterexample_before_fix := @Cjet.Props.Cjson.number_print_counterexample_before_fix
+theorem print_number_is_exact_as_built : type_of% @Cjet.Props.Cjson.print_number_is_exact_as_built := @Cjet.Props.Cjson.print_number_is_exact_as_built
+theorem utf8_encoder_correct : type_of% @Cjet.Props.Cjson.utf8_encoder_correct := @Cjet.Props.Cjson.utf8_encoder_correct
+theorem utf16_decoding_correct : type_of% @Cjet.Props.Cjson.utf16_decoding_correct := @Cjet.Props.Cjson.utf16_decoding_correct
+theorem utf16_decoding_correct_pair : type_of% @Cjet.Props.Cjson.utf16_decoding_correct_pair := @Cjet.Props.Cjson.utf16_decoding_correct_pair
+theorem utf16_lone_low_rejected : type_of% @Cjet.Props.Cjson.utf16_lone_low_rejected := @Cjet.Props.Cjson.utf16_lone_low_rejected
+theorem utf16_lone_high_rejected : type_of% @Cjet.Props.Cjson.utf16_lone_high_rejected := @Cjet.Props.Cjson.utf16_lone_high_rejected
+theorem utf16_invalid_hex_is_nul : type_of% @Cjet.Props.Cjson.utf16_invalid_hex_is_nul := @Cjet.Props.Cjson.utf16_invalid_hex_is_nul
 
 end Cjet.Props.CJSON_DEV
